@@ -701,6 +701,29 @@ def _ifexp_statements(fn):
                     b[i] = new
                     k += 1
                     continue        # re-examine: nested conditional expressions
+                # `f(a if c else b)` as a statement, everything evaluated before the argument being side-effect free
+                call = v if isinstance(st, (ast.Expr, ast.Assign, ast.Return)) and isinstance(v, ast.Call) else None
+                if call is not None and not call.keywords and sum(isinstance(x, ast.IfExp) for x in call.args) == 1 \
+                        and _is_pure(call.func.value if isinstance(call.func, ast.Attribute) else call.func) \
+                        and not (isinstance(st, ast.Assign) and any(not _is_pure(t) for t in st.targets)):
+                    j = next(j_ for j_, x in enumerate(call.args) if isinstance(x, ast.IfExp))
+                    if all(_is_pure(x) for x in call.args[:j]) and _is_pure(call.args[j].test):
+                        ife = call.args[j]
+
+                        def mk2(val, call=call, j=j, st=st):
+                            c2 = copy.deepcopy(call)
+                            c2.args[j] = val
+                            if isinstance(st, ast.Return):
+                                return ast.Return(value=c2)
+                            if isinstance(st, ast.Expr):
+                                return ast.Expr(value=c2)
+                            return ast.Assign(targets=copy.deepcopy(st.targets), value=c2)
+                        new = ast.If(test=ife.test, body=[mk2(ife.body)], orelse=[mk2(ife.orelse)])
+                        ast.copy_location(new, st)
+                        ast.fix_missing_locations(new)
+                        b[i] = new
+                        k += 1
+                        continue
                 i += 1
     return k
 
